@@ -10,6 +10,7 @@ package sched
 
 import (
 	"fmt"
+	"os"
 	"runtime"
 	"runtime/debug"
 	"strconv"
@@ -402,14 +403,16 @@ func (s *S) wokenPark() bool {
 		return true
 	}
 	t := s.byG[g]
-	if t != nil && t.fn == nil && t.goid != goid() {
-		// the runtime has given the g of a goroutine that has ended (an
-		// inherited or adopted one) to a new goroutine
+	if t != nil && (t.done || t.goid != goid()) {
+		// the runtime has given the g of a goroutine that has ended (a task of
+		// this run that has finished, an inherited or adopted goroutine) to a
+		// new goroutine: the entry is stale
 		t.done = true
 		if t.blocked {
 			t.blocked = false
 			s.nBlocked.Add(-1)
 		}
+		delete(s.byG, g)
 		t = nil
 	}
 	if t == nil {
@@ -614,6 +617,16 @@ func (s *S) deadlock(st map[uint64]string) {
 			d.Blocked = append(d.Blocked, i)
 			d.Status = append(d.Status, fmt.Sprintf("task %d: %s", i, st[t.goid]))
 		}
+	}
+	if os.Getenv("VERIF_DEBUG_SCHED") != "" {
+		for i, t := range s.tasks {
+			fmt.Fprintf(os.Stderr, "deadlock: task %d caller=%v adopted=%v done=%v blocked=%v parked=%v goid=%d status=%q\n", i, i < s.nCallers, t.fn == nil, t.done, t.blocked, t.parked, t.goid, st[t.goid])
+		}
+		for id, v := range st {
+			fmt.Fprintf(os.Stderr, "deadlock: goroutine %d %q\n", id, v)
+		}
+		buf := make([]byte, 1<<20)
+		fmt.Fprintf(os.Stderr, "deadlock stacks:\n%s\n", buf[:runtime.Stack(buf, true)])
 	}
 	s.Deadlock = d
 	if s.Aborted == nil {
